@@ -130,7 +130,7 @@ CHECKS = {
              "multi-row parent deletes, deletes on the self-referencing table incl. reference cycles, TRUNCATE. The model is checked for FKHold and "
              "ConstraintsHold (invariants) and FailedIsStutter; every history is replayed and TLC compares outcome, count and all table contents with "
              "Engine!Apply (DeleteRows / UpdCascade define the referential actions) after every statement.",
-        note=TRUST + "Quick: <= 3 statements after the starting point, thorough <= 4. ON ... RESTRICT cannot be written (the parser only accepts NO ACTION, "
+        note=TRUST + "Quick: <= 3 statements after the starting point over five combinations of the action modes; thorough: the same depth over all twelve combinations. ON ... RESTRICT cannot be written (the parser only accepts NO ACTION, "
              "CASCADE, SET NULL, SET DEFAULT); SET DEFAULT, composite keys and DROP TABLE of a referenced parent are outside the model. Where SQL leaves the "
              "moment of a NO ACTION check open, rejecting the statement is accepted as well (never a partial effect)."),
     "C13": dict(
